@@ -100,7 +100,7 @@ UNIT = dict(
         ]),
         "TokenBucketBudget::try_withdraw@RetryBudget": dict(rules=[
             ("R7", [NOOP, WITHDRAW_CAS]),
-            ("loops", {0: "invariant self.wf(), vx_grants == 0,"}),
+            ("loops", {0: "invariant self.wf(), vx_grants == 0,"}, True),
         ] + WITNESS),
         "TokenBucketBudget::deposit@RetryBudget": dict(rules=[
             ("R7", [NOOP, {"default": DEPOSIT_CAS, "store": DEPOSIT_STORE}]),
@@ -109,7 +109,7 @@ UNIT = dict(
         "TokenBucketBudget::balance@RetryBudget": dict(rules=[("R7", [NOOP])]),
         "AimdBudget::try_withdraw@RetryBudget": dict(rules=[
             ("R7", [NOOP, WITHDRAW_CAS_A]),
-            ("loops", {0: "invariant self.wf(), vx_grants == 0,"}),
+            ("loops", {0: "invariant self.wf(), vx_grants == 0,"}, True),
         ] + WITNESS),
         "AimdBudget::deposit@RetryBudget": dict(rules=[
             ("R7", [NOOP, {"default": DEPOSIT_CAS_A, "store": DEPOSIT_STORE}]),
